@@ -130,7 +130,7 @@ pub fn run(prop: Prop, tier: Tier, seed: u64) -> i32 {
         acc
     });
     for a in results {
-        run.acc.merge(a, &["max_capture_chain", "max_walk_plies"]);
+        run.acc.merge(a, &["max_capture_chain", "max_walk_plies", "max_legal_captures_in_a_position", "max_legal_moves_in_a_position"]);
     }
     if matches!(prop, Prop::C01 | Prop::C02 | Prop::C05) {
         run.set("exhaustive_families", json!(["castling: 4 types x enemy king square x (none | one extra enemy piece of 5 kinds on any square), every legal member",
@@ -234,7 +234,16 @@ pub fn run_job(job: &Job, prop: Prop, seed: u64, starts: &[Pos], h: &ZobristHash
         Job::Synth { n, stream } => {
             let mut rng = Rng::stream(seed, *stream);
             for k in 0..*n {
-                let p = workload::synth_position(&mut rng);
+                let p = if k % 100 == 99 {
+                    let p = workload::capture_storm_position(&mut rng);
+                    let ms = legal_moves(&p);
+                    acc.max("max_legal_captures_in_a_position", ms.iter().filter(|m| is_capture(&p, **m)).count() as u64);
+                    acc.max("max_legal_moves_in_a_position", ms.len() as u64);
+                    acc.count("capture_storm_positions", 1);
+                    p
+                } else {
+                    workload::synth_position(&mut rng)
+                };
                 if k == 0 && *stream == 100_000 {
                     acc.sample(json!({"synthesised": p.to_fen()}));
                 }
